@@ -245,6 +245,22 @@ func Harness_C07_missing_parent() {
 	if err != nil {
 		return
 	}
+	// which of the last commit's parents the destination already has: none (default) or a
+	// subset chosen by the explorer (somePresent=1); the commit may only be accepted when
+	// every parent is there
+	allPresent := len(last.Parents) > 0
+	if zzverif.Param("somePresent", 0) == 1 {
+		for _, p := range last.Parents {
+			if zzverif.Bool("parentPresent") {
+				zzrepo.CopyKey(dst, sc.src, "com/"+string(p))
+			} else {
+				allPresent = false
+			}
+		}
+	} else {
+		allPresent = false
+	}
+	zzverif.Assume(!allPresent)
 	recv := NewObjectReceiver(dst, [][]byte{last.Sum}, logr.Discard())
 	refused := false
 	for packs := 0; packs < 40; packs++ {
